@@ -412,6 +412,7 @@ class ObjectCodeGenerator:
 
         self._context.reached_optional_field = False
         self._context.reached_dummy = False
+        self._data.declares_reached_missing_optional = False
 
         self._data.serialize.add_line("writer.add_byte(0xFF)")
         self._data.deserialize.add_line("reader.next_chunk()")
